@@ -104,7 +104,8 @@ def run_item(acc, item):
             return
         acc.ev("legal-signature-accepted")
         # direct call of a state method
-        for call in (lambda: m.n1(), lambda: m.n1(1.0, 2.0, True), lambda: cls.n1(m)):
+        for call in (lambda: m.n1(), lambda: m.n1(1.0, 2.0, True), lambda: cls.n1(m), lambda: m.n1(tm=0.0),
+                     lambda: m.n1(initial_call=True, state_tm=1.0)):
             acc.checks += 1
             try:
                 call()
@@ -155,6 +156,7 @@ def exhaustive_items():
                "self, tm, **kw", "*args", "**kwargs", "self, *tm", "self, **state_tm"]
     illegal += [f"self, {f}" for f in FOREIGN] + [f"self, tm, {f}" for f in FOREIGN] + [f"self, {f}, initial_call, state_tm" for f in FOREIGN[:6]]
     illegal += [f"{f}, tm" for f in ("me", "s", "cls", "state_tm")]
+    illegal += ["tm, self", "initial_call, self, tm", "state_tm, self", "tm, self, state_tm"]     # self present, but not first
     for dec in ("state", "timed_state", "default_state"):
         for p in illegal:
             if p == "":
